@@ -308,12 +308,27 @@ type ImplFailure struct {
 
 func (f *ImplFailure) Error() string { return "implementation failure: " + f.Panic + " at " + f.At }
 
+// Inline makes TransactRaw run the transaction on the calling goroutine (required under the vsync scheduler).
+var Inline bool
+
 // HangTimeout is the watchdog for one transaction (normal latency is < 1 ms).
 var HangTimeout = 20 * time.Second
 
 // TransactRaw sends raw JSON params. A panic or a hang of the implementation is
 // returned as *ImplFailure (the server is then unusable: it died holding its lock).
 func (s *Sys) TransactRaw(args []json.RawMessage) (res []ovsdb.OperationResult, rpcErr error) {
+	if Inline {
+		// under the controlled scheduler the calling goroutine is the thread: no helper goroutine
+		defer func() {
+			if p := recover(); p != nil {
+				if fmt.Sprintf("%T", p) == "vsync.abortSentinel" {
+					panic(p)
+				}
+				res, rpcErr = nil, &ImplFailure{fmt.Sprint(p), PanicSite(string(debug.Stack()))}
+			}
+		}()
+		return s.transactRaw(args)
+	}
 	type out struct {
 		res []ovsdb.OperationResult
 		err error
